@@ -127,6 +127,10 @@ pub enum Step {
     /// consume the rest with `skip(k)` / `step_by(k + 1)` and collect (drains and owning iterators)
     Skip(u16),
     StepBy(u16),
+    /// `find` (false) / `rfind` (true) with a predicate that panics on its k-th call; the panic is caught and the script
+    /// goes on with the same iterator: what is left must be a contiguous rest of the sequence, and how much was consumed
+    /// goes into the trace (it must not depend on the layout or the build)
+    PanicSearch(u16, bool),
     /// consume the rest through internal iteration from the back: `rfold` / `rev().for_each(..)`
     RFold,
     /// `rev().last()` resp. `try_fold`-style `find` from the front (`position`), consuming
@@ -160,6 +164,10 @@ pub enum Acc {
     RangeMut,
     MutSlices,
     MakeContiguous,
+    /// `iter_mut().max()` / `iter_mut().min()`: the position argument is ignored, the target is the last greatest /
+    /// first least element (what `Iterator::max` / `min` document); interesting with equal values in the contents
+    IterMutMax,
+    IterMutMin,
 }
 
 pub const ALL_ACC: &[Acc] = &[
@@ -174,6 +182,8 @@ pub const ALL_ACC: &[Acc] = &[
     Acc::RangeMut,
     Acc::MutSlices,
     Acc::MakeContiguous,
+    Acc::IterMutMax,
+    Acc::IterMutMin,
 ];
 
 #[derive(Debug, Clone, Copy, PartialEq, Eq, Hash, Serialize, Deserialize)]
@@ -371,9 +381,32 @@ pub struct Case {
     /// (`std::thread::panicking()` is then true throughout)
     #[serde(default)]
     pub unwinding: bool,
+    /// initial values: 0 distinct ascending, 1 all equal, 2 ascending with ties (pairs), 3 descending, 4 alternating high / low
+    #[serde(default)]
+    pub vals: u8,
+}
+
+pub fn initial_val(pattern: u8, i: u32, len: u32) -> u32 {
+    match pattern {
+        1 => 1000,
+        2 => 1000 + i / 2,
+        3 => 1000 + (len - i),
+        4 => {
+            if i % 2 == 0 {
+                1005
+            } else {
+                1001
+            }
+        }
+        _ => 1000 + i,
+    }
 }
 
 impl Case {
+    pub fn with_vals(mut self, pattern: u8) -> Self {
+        self.vals = pattern;
+        self
+    }
     pub fn simple(n: usize, start: usize, len: usize, ops: Vec<Op>) -> Self {
         Case {
             n: n as u32,
@@ -387,6 +420,7 @@ impl Case {
             ops,
             salt: 0,
             unwinding: false,
+            vals: 0,
         }
     }
     pub fn to_json(&self) -> String {
@@ -430,6 +464,7 @@ pub fn render_steps(st: &[Step]) -> String {
             Step::Fold => "fold".to_string(),
             Step::RevCollect => "rev".to_string(),
             Step::Skip(k) => format!("skip({k})"),
+            Step::PanicSearch(k, back) => format!("{}(panics at call {k})", if *back { "rfind" } else { "find" }),
             Step::StepBy(k) => format!("step_by({})", *k as usize + 1),
             Step::RFold => "rfold".to_string(),
             Step::RevLast => "rev().last()".to_string(),
